@@ -38,7 +38,7 @@ CALLS3 = [0]
 
 
 def install_kinds():
-    from oslo_policy import _checks
+    from oslo_policy import policy as _checks          # public names: Check, register
 
     class Rec(_checks.Check):
         def __call__(self, target, creds, enforcer, current_rule=None):
@@ -54,16 +54,14 @@ def install_kinds():
         def __call__(self, target, creds, enforcer, rule_name=None):
             SEEN.append(rule_name)
             return self.match in creds['roles']
-    _checks.registered_checks['pvrec'] = Rec
-    _checks.registered_checks['pvrec3'] = Rec3
-    _checks.registered_checks['pvrec4'] = Rec4
+    env.register_kind('pvrec', Rec)
+    env.register_kind('pvrec3', Rec3)
+    env.register_kind('pvrec4', Rec4)
 
 
 def remove_kinds():
-    from oslo_policy import _checks
-    _checks.registered_checks.pop('pvrec', None)
-    _checks.registered_checks.pop('pvrec3', None)
-    _checks.registered_checks.pop('pvrec4', None)
+    for k in ('pvrec', 'pvrec3', 'pvrec4'):
+        env.unregister_kind(k)
 
 
 def leaf_value(text, roles):
